@@ -685,6 +685,15 @@ struct Runner : IRunner {
             } else check_pos(op.c_str(), r, it, rit);
             if (op == "find" && rit != R.end() && it != c.end() && !equiv(r, ent(*it).first, k)) v01("find returns an entry with a non-equivalent key");
             if (op == "find" && (it == c.end()) != (cit == cc.end())) v01("find: end() mismatch between overloads");
+            if (op != "find") {
+                // the returned iterator must be usable: end() exactly when std's is, otherwise it refers to an
+                // entry whose key is equivalent to the key std's iterator refers to
+                if ((it == c.end()) != (rit == R.end()))
+                    v01(op + ": returns " + (it == c.end() ? "end()" : "an iterator other than end()") + ", std " +
+                        (rit == R.end() ? "end()" : "an entry"));
+                else if (it != c.end() && !equiv(r, ent(*it).first, rent(rit).first))
+                    v01(op + ": *it is " + sent(ent(*it)) + ", std refers to " + sent(rent(rit)));
+            }
             ret = op + " " + p;
             return true;
         }
@@ -697,6 +706,14 @@ struct Runner : IRunner {
             if (!(CIt(pr.first) == cpr.first) || !(CIt(pr.second) == cpr.second)) v01("equal_range: const and non-const overloads disagree");
             check_pos("equal_range.first", r, pr.first, rr.first);
             check_pos("equal_range.second", r, pr.second, rr.second);
+            if ((pr.first == c.end()) != (rr.first == R.end()) || (pr.second == c.end()) != (rr.second == R.end()))
+                v01("equal_range: end() mismatch with std");
+            else {
+                if (pr.first != c.end() && !equiv(r, ent(*pr.first).first, rent(rr.first).first))
+                    v01("equal_range.first: *it is " + sent(ent(*pr.first)) + ", std refers to " + sent(rent(rr.first)));
+                if (pr.second != c.end() && !equiv(r, ent(*pr.second).first, rent(rr.second).first))
+                    v01("equal_range.second: *it is " + sent(ent(*pr.second)) + ", std refers to " + sent(rent(rr.second)));
+            }
             ret = "eqr " + pos(r, pr.first) + " " + pos(r, pr.second);
             return true;
         }
